@@ -91,6 +91,8 @@ pub fn c09_build(raw: &Raw, _tier: Tier, _sched: bool) -> Scenario {
                     }
                 }
                 10..=13 => Op::Unsubscribe { store: s, sub: subs[pick(r.a, subs.len())] },
+                // the Subscription handle is dropped without unsubscribe(): nothing ends
+                14 if (r.k >> 4) % 2 == 0 => Op::ForgetSubscription { store: s, sub: subs[pick(r.a, subs.len())] },
                 _ => Op::Stall(stall_of(r.a)),
             };
             b.s.threads[th].push(op);
@@ -297,6 +299,7 @@ fn c10_attached_after_close(raw: &Raw) -> Scenario {
         b.sub(SubKind::Channeled { cap: SMALL_CAPS[pick(knob(raw, 2), SMALL_CAPS.len())], pol: cpol, default_ctor: false })
     };
     b.sub_mut(c).stall = stall_of(knob(raw, 5));
+    b.sub_mut(c).via_trait = (knob(raw, 13) >> 3) % 2 == 0;
     let d2 = b.sub(SubKind::Direct);
     let primer = b.action(s, 0);
     b.s.prelude.push(Op::Dispatch { act: primer, via: Via::Inherent });
@@ -344,6 +347,8 @@ pub fn c10_build(raw: &Raw, _tier: Tier, _sched: bool) -> Scenario {
         (ccap, b.sub(SubKind::Channeled { cap: ccap, pol: cpol, default_ctor: false }))
     };
     let _ = ccap;
+    // both doors: the inherent subscribed()/subscribed_with() and the ones of the `Store` trait
+    b.sub_mut(c).via_trait = (knob(raw, 13) >> 3) % 2 == 0;
     let d2 = b.sub(SubKind::Direct);
     let gated = knob(raw, 4) % 2 == 0;
     let g = if gated {
@@ -636,7 +641,7 @@ pub fn c10_check(scn: &Scenario, h: &History) -> Outcome {
 
 pub static C10: Profile = Profile {
     id: "C10",
-    rule: "proptest scenarios: a triple registered back-to-back in the prelude (in a sixth of the cases after close(), while the held reducer still has a backlog) - direct D1, channeled C (capacity 1-4, each policy), direct D2 - optionally a second channeled subscriber; 1-3 producers; C's callback is gated (tokens released by a controller thread; under drop policies half of the gated cases hold C without any token until every producer has finished, which deadlocks if reducing waits for C) or stalls; unsubscribe(C) (twice), stop() (in a third of the cases preceded by close()), or both racing on two threads, at a generated point. Oracle O-CHAN: C's calls all on one thread that is not the reducer context, a client thread or another channeled subscriber's thread; C's (state,action) stream vs D1's (equal prefix under BlockOnFull, in-order subsequence under drop policies, newest delivered under DropOldest); everything D2 saw before Inv(unsubscribe C) delivered before its Ret (flush); nothing after; all accepted actions reduced. Non-trivial = C lagged by >= capacity+1 notifications at some point AND the unsubscribe/stop came while an item was still queued for C; distinct by scenario hash.",
+    rule: "proptest scenarios (C attached through the inherent methods or through the `Store` trait): a triple registered back-to-back in the prelude (in a sixth of the cases after close(), while the held reducer still has a backlog) - direct D1, channeled C (capacity 1-4, each policy), direct D2 - optionally a second channeled subscriber; 1-3 producers; C's callback is gated (tokens released by a controller thread; under drop policies half of the gated cases hold C without any token until every producer has finished, which deadlocks if reducing waits for C) or stalls; unsubscribe(C) (twice), stop() (in a third of the cases preceded by close()), or both racing on two threads, at a generated point. Oracle O-CHAN: C's calls all on one thread that is not the reducer context, a client thread or another channeled subscriber's thread; C's (state,action) stream vs D1's (equal prefix under BlockOnFull, in-order subsequence under drop policies, newest delivered under DropOldest); everything D2 saw before Inv(unsubscribe C) delivered before its Ret (flush); nothing after; all accepted actions reduced. Non-trivial = C lagged by >= capacity+1 notifications at some point AND the unsubscribe/stop came while an item was still queued for C; distinct by scenario hash.",
     raw: raw3,
     build: c10_build,
     check: c10_check,
